@@ -9,6 +9,7 @@ The oracle below is an independent reading of the *property* in Python (urllib's
 UTF-8 codec and `int`), it never looks at the Lean model.
 """
 import json
+import os
 import re
 import urllib.parse
 
@@ -287,8 +288,173 @@ def oracle(case, out):
             return "query: a target http::Uri must refuse reached the extractor"
         return oracle_form(case, out, q, 1)
     if op == "form":
+        gate = py_ct("form", case.get("ct"))
+        got = out.get("kind") if out.get("kind") in ("ct-missing", "ct-mismatch") else "ct-ok"
+        if got not in gate:
+            return "form: content-type %r should give %s, got %s" % (bytes(case.get("ct") or b""), sorted(gate), json.dumps(out)[:120])
+        if got != "ct-ok":
+            return None
         return oracle_form(case, out, bytes(case["body"]), 0)
+    if op == "ct":
+        got = ct_outcome(out)
+        gate = py_ct(case["kind"], case.get("ct"))
+        return None if got in gate else "content-type gate (%s): %r should give %s, got %s" % (
+            case["kind"], bytes(case.get("ct") or b""), sorted(gate), json.dumps(out)[:120])
     return "unknown op"
+
+
+
+# ---- Content-Type gate (independent reading of RFC 6838/7231 media types) ----------------------------
+TOK = r"[!#$%&'*+\-.^_`|~0-9A-Za-z]"
+
+
+def py_ct(kind, ct):
+    """Set of acceptable gate outcomes for header value `ct` (None = header absent)."""
+    if ct is None:
+        return {"ct-missing"}
+    if any(b != 9 and not (32 <= b < 127) for b in ct):
+        return {"ct-missing"}
+    s = bytes(ct).decode()
+    essence, sep, params = s.partition(";")
+    m = re.fullmatch("(%s+)/(%s*)" % (TOK, TOK), essence)
+    if not m or (sep and not m.group(2)):
+        return {"ct-mismatch"}
+    ty, sub = m.group(1).lower(), m.group(2).lower()
+    suffix = sub[1:].rsplit("+", 1)[1] if "+" in sub[1:] else None
+    base = sub[:len(sub) - len(suffix) - 1] if suffix is not None else sub
+    good = ty == "application" and ((base == "json" or suffix == "json") if kind == "json" else (base == "x-www-form-urlencoded"))
+    if not good:
+        return {"ct-mismatch"}
+    if not sep or re.fullmatch(r"( *%s+=(%s+|\"[^\"\\]+\") *(;|$))* *" % (TOK, TOK), params):
+        return {"ct-ok"}
+    return {"ct-ok", "ct-mismatch"}
+
+
+def ct_outcome(out):
+    if out.get("r") == "ct-ok":
+        return "ct-ok"
+    if out.get("r") == "err" and out.get("kind") in ("ct-missing", "ct-mismatch"):
+        return out["kind"]
+    return None
+
+
+# ---- JSON bodies: Python's json module as the reference parser (oracle only, no Lean model) -------
+class _Reject(Exception):
+    pass
+
+
+def _const(x):
+    raise _Reject(x)
+
+
+def json_field(ty, v):
+    """(value, problem): canonical value or a description of why `v` does not fit `ty`."""
+    kind = ty.split(":")[0] if ":" in ty else "s"
+    b = base(ty)
+    if kind == "opt":
+        if v is None:
+            return None, None
+        x, pr = json_field(b, v)
+        return {"some": x}, pr
+    if kind in ("vec", "vecd"):
+        if not isinstance(v, list):
+            return None, "not an array"
+        xs = []
+        for e in v:
+            x, pr = json_field(b, e)
+            if pr:
+                return None, pr
+            xs.append(x)
+        return {"seq": xs}, None
+    m = INT_RE.match(b)
+    if m:
+        if not (isinstance(v, tuple) and v[0] == "int"):
+            return None, "not an integer literal"
+        if v[1] == "-0" and m.group(2) != "128":
+            return None, "negative zero (serde_json reads -0 as a float)"
+        n = int(v[1])
+        lo, hi = int_range(b)
+        return (str(n), None) if lo <= n <= hi else (None, "out of range")
+    if b == "bool":
+        return (v, None) if isinstance(v, bool) else (None, "not a bool")
+    if not isinstance(v, str):
+        return None, "not a string"
+    if any(0xD800 <= ord(c) <= 0xDFFF for c in v):
+        return None, "lone surrogate"
+    if b == "char":
+        return (ord(v), None) if len(v) == 1 else (None, "not one char")
+    if b == "str" and any(c in '"\\' or ord(c) < 0x20 for c in v):
+        return None, "needs unescaping, cannot be borrowed"
+    return list(v.encode()), None
+
+
+def oracle_json(case, out):
+    r = out.get("r")
+    if r not in ("ok", "err") or (r == "err" and out.get("kind") not in DOC_KINDS):
+        return "json: unexpected outcome %s" % json.dumps(out)[:200]
+    gate = py_ct("json", case.get("ct"))
+    got_gate = out.get("kind") if out.get("kind") in ("ct-missing", "ct-mismatch") else "ct-ok"
+    if got_gate not in gate:
+        return "json: content-type %r should give %s, got %s" % (bytes(case["ct"] or b""), sorted(gate), json.dumps(out)[:120])
+    if got_gate != "ct-ok":
+        return None
+    body = bytes(case["body"])
+    try:
+        doc = json.loads(body.decode("utf-8"), object_pairs_hook=lambda ps: ("obj", ps), parse_int=lambda x: ("int", x),
+                         parse_float=lambda x: ("float", x), parse_constant=_const)
+    except (ValueError, _Reject, RecursionError):
+        return None if r == "err" and out["kind"] in ("json-syntax", "json-eof", "json-data") else \
+            "json: malformed document accepted: %s" % json.dumps(out)[:200]
+
+    def plain(v):
+        if isinstance(v, tuple) and v[0] == "obj":
+            return {k: plain(x) for k, x in v[1]}
+        if isinstance(v, list):
+            return [plain(x) for x in v]
+        return v
+    if not (isinstance(doc, tuple) and doc[0] == "obj"):
+        if isinstance(doc, list):
+            return None  # serde-derived structs also accept the positional (array) form: not judged
+        return None if r == "err" else "json: non-object document accepted"
+    fields = SHAPES[case["shape"]]
+    names = [n for n, _ in fields]
+    keys = [k for k, _ in doc[1]]
+    problems = []
+    for n in names:
+        if keys.count(n) > 1:
+            problems.append("duplicate field %s" % n)
+    values = {}
+    d = dict(doc[1])
+    for n, ty in fields:
+        kind = ty.split(":")[0] if ":" in ty else "s"
+        if n not in d:
+            if kind == "opt":
+                values[n] = None
+            elif kind == "vecd":
+                values[n] = {"seq": []}
+            else:
+                problems.append("missing field %s" % n)
+            continue
+        v = d[n]
+        v = plain(v) if not (isinstance(v, tuple) and v[0] in ("int", "float")) else v
+        if isinstance(v, list):
+            v = [x for x in v]
+        x, pr = json_field(ty, v)
+        if pr:
+            problems.append("%s: %s" % (n, pr))
+        values[n] = x
+    lenient_str = [n for n, ty in fields if base(ty) == "str"]
+    if r == "err":
+        if out["kind"] not in ("json-data", "json-syntax"):
+            return "json: well-formed document rejected as %s" % out["kind"]
+        if problems or lenient_str:
+            return None
+        return "json: rejected a document that encodes a value of the target type: %s (%s)" % (json.dumps(values)[:150], out.get("msg"))
+    if problems:
+        return "json: accepted although %s -> %s" % ("; ".join(problems)[:150], json.dumps(out.get("v"))[:150])
+    if out.get("v") != values:
+        return "json: silently different value: expected %s, got %s" % (json.dumps(values)[:200], json.dumps(out.get("v"))[:200])
+    return None
 
 
 def match_known_factory(R):
@@ -464,6 +630,128 @@ def gen_pairs(rng, shape, for_query):
     return bs
 
 
+
+CT_POOL = ["application/json", "application/JSON", "Application/Json; charset=utf-8", "application/hal+json", "application/vnd.api+json;v=1",
+           "application/json;", "application/json; ", "application/json ;charset=utf-8", "text/json", "application/jsonx", "application/x+jsonx",
+           "application/json+xml", "application/+json", "application/a+b+json", "application/x-www-form-urlencoded",
+           "application/X-WWW-FORM-URLENCODED; charset=UTF-8", "application/x-www-form-urlencoded+json", "multipart/form-data; boundary=x", "text/plain",
+           "hello world", "application", "application/", "/json", "*/*", "application/*", "application/json; charset", "application/json; charset=",
+           "application/json; a=\"b c\"; d=e", "application/json; a=\"\"", "application/json; a=\"x\" ; b=c", "application/json;a=b;", "application/json;;",
+           "application/json; =b", "application/json\t", "application/json,text/plain", "application/json; a=b c", "", " application/json",
+           "application/json ", "application/jsön", "application/json; a=\"é\"", "application/x-www-form-urlencoded;", "application/x-www-form-urlencoded ; a=b",
+           "APPLICATION/X-WWW-FORM-URLENCODED", "application/json; a=\"x", "application/json; a=b=c", "application/json+", "application/json+json"]
+
+
+def gen_ct_value(rng, good):
+    if rng.random() < 0.55:
+        v = good
+    else:
+        v = rng.choice(CT_POOL)
+    if rng.random() < 0.25:
+        b = bytearray(v.encode())
+        i = rng.randrange(len(b) + 1)
+        if rng.random() < 0.6:
+            b[i:i] = rng.choice(b"+;/= \"aJ*")[0:1] if False else bytes([rng.choice(b"+;/= \"aJ*")])
+        elif b:
+            del b[min(i, len(b) - 1)]
+        v = bytes(b).decode("utf-8", "ignore")
+    if rng.random() < 0.06:
+        return None
+    return [c for c in v.encode() if c == 9 or 32 <= c < 127 or c >= 128]
+
+
+def gen_ct(rng):
+    kind = rng.choice(["json", "form"])
+    return {"op": "ct", "kind": kind, "ct": gen_ct_value(rng, "application/json" if kind == "json" else "application/x-www-form-urlencoded")}
+
+
+JSON_SHAPES = ["QM", "QI", "QO", "QV", "QS", "PW", "PM"]
+
+
+def json_str(rng, s):
+    out = '"'
+    for ch in s:
+        o = ord(ch)
+        if ch in '"\\':
+            out += "\\" + ch
+        elif o < 0x20:
+            out += rng.choice(["\\u%04x" % o] + ({8: ["\\b"], 9: ["\\t"], 10: ["\\n"], 12: ["\\f"], 13: ["\\r"]}.get(o, [])))
+        elif rng.random() < 0.15:
+            if o > 0xFFFF:
+                o -= 0x10000
+                out += "\\u%04x\\u%04X" % (0xD800 + (o >> 10), 0xDC00 + (o & 0x3FF))
+            else:
+                out += "\\u%04x" % o
+        elif ch == "/" and rng.random() < 0.3:
+            out += "\\/"
+        else:
+            out += ch
+    return out + '"'
+
+
+def json_value_text(rng, ty, valid):
+    kind = ty.split(":")[0] if ":" in ty else "s"
+    b = base(ty)
+    if kind == "opt":
+        if rng.random() < 0.3:
+            return "null"
+        return json_value_text(rng, b, valid)
+    if kind in ("vec", "vecd"):
+        return "[" + rng.choice([",", " , ", ",\n"]).join(json_value_text(rng, b, valid) for _ in range(rng.choice([0, 1, 2, 3]))) + "]"
+    if INT_RE.match(b):
+        if valid:
+            t = gen_int_text(rng, b, True)
+            t = str(int(t)) if t not in ("-0",) else "0"
+            return t
+        return rng.choice([gen_int_text(rng, b, False), "1.0", "1e2", "-0", "\"5\"", "true", "null", "01", "[1]", "{}", "1.5", "-1", "1E400"])
+    if b == "bool":
+        return rng.choice(["true", "false"]) if valid else rng.choice(["1", "\"true\"", "null", "True", "0"])
+    if b == "char":
+        if valid:
+            return json_str(rng, rng.choice(["a", "é", "€", "😀", "\"", "\\", "\n", "/", "\x00"]))
+        return rng.choice(['""', '"ab"', "1", "null", '"\\ud83d"'])
+    if valid or rng.random() < 0.5:
+        text = "".join(rng.choice(STR_ATOMS + ['"', "\\", "\t", "\x01"]) for _ in range(rng.choice([0, 1, 2, 3, 5])))
+        if b == "str" and rng.random() < 0.7:
+            text = "".join(c for c in text if c not in '"\\' and ord(c) >= 0x20)
+            return '"' + text + '"'
+        return json_str(rng, text)
+    return rng.choice(["1", "null", "true", "[]", '"\\ud800"', '"\\udc00x"', '"\\u12"', '"\\x"', '"a\nb"', "{}"])
+
+
+def gen_json(rng):
+    shape = rng.choice(JSON_SHAPES)
+    fields = list(SHAPES[shape])
+    plan = validity_plan(rng, len(fields))
+    items = []
+    for (n, ty), valid in zip(fields, plan):
+        kind = ty.split(":")[0] if ":" in ty else "s"
+        drop = rng.random() < (0.35 if kind in ("opt", "vecd") else (0.0 if valid else 0.3))
+        if drop:
+            continue
+        items.append((n, json_value_text(rng, ty, valid)))
+        if not valid and rng.random() < 0.2:
+            items.append((n, json_value_text(rng, ty, True)))
+    for _ in range(rng.choice([0, 0, 1, 2])):
+        items.append((rng.choice(["x", "extra", "Id", "name2"]), rng.choice(["1", "null", '"s"', "[1,[2,{\"a\":null}]]", '{"k":{"j":[true,false]}}', "1.5e3", '"\\u00e9"'])))
+    if rng.random() < 0.6:
+        rng.shuffle(items)
+    ws = lambda: rng.choice(["", "", " ", "\n", "\t ", "\r\n"])
+    text = ws() + "{" + ws() + ("," + ws()).join(json_str(rng, n) if rng.random() < 0.1 else '"%s"' % n + ws() + ":" + ws() + v for n, v in
+                                                   [(n, v) for n, v in items]) + ws() + "}" + ws()
+    # (a key written with escapes above loses its value on purpose: a malformed member)
+    body = text.encode("utf-8", "surrogatepass")
+    m = rng.random()
+    if m < 0.06:
+        body = body[:rng.randrange(len(body) + 1)]
+    elif m < 0.12:
+        body = mutate_bytes(rng, body)
+    elif m < 0.14:
+        body = rng.choice([b"", b"null", b"[]", b"42", b"\"s\"", b"{", b"}", b"{}x", b"\xef\xbb\xbf{}", b"{\"a\":1,}", b"{'a':1}", b"NaN", b"[1,\"a\",true,\"x\"]"])
+    ct = gen_ct_value(rng, "application/json") if rng.random() < 0.2 else list(b"application/json")
+    return {"op": "json", "shape": shape, "ct": ct, "body": list(body)}
+
+
 def gen_query(rng):
     shape = rng.choice(QUERY_SHAPES)
     return {"op": "query", "shape": shape, "q": list(gen_pairs(rng, shape, True))}
@@ -471,7 +759,8 @@ def gen_query(rng):
 
 def gen_form(rng):
     shape = rng.choice(QUERY_SHAPES)
-    return {"op": "form", "shape": shape, "body": list(gen_pairs(rng, shape, False))}
+    ct = gen_ct_value(rng, "application/x-www-form-urlencoded") if rng.random() < 0.2 else list(b"application/x-www-form-urlencoded")
+    return {"op": "form", "shape": shape, "ct": ct, "body": list(gen_pairs(rng, shape, False))}
 
 
 PD_ATOMS = [b"%", b"%4", b"%41", b"%2541", b"%zz", b"%fF", b"%Ff", b"a", b"0", b"G", b"g", b"+", b"\xff", b"%%", b"%C3%A9", b"%25", b" ", b"@", b"`"]
@@ -505,6 +794,8 @@ def gen(rng):
         return gen_query(rng)
     if r < 0.7:
         return gen_form(rng)
+    if r < 0.76:
+        return gen_ct(rng)
     c = gen_small(rng)
     if c["op"] == "scalar" and not is_utf8(bytes(c["b"])):
         c["b"] = list(b"12")
@@ -520,6 +811,8 @@ def nontrivial(case, out):
         return len(case["b"]) > 0
     if op in ("pdec", "fparse"):
         return 37 in case["b"] or 43 in case["b"]
+    if op == "ct":
+        return case.get("ct") is not None
     if op == "utf8":
         return any(c >= 128 for c in case["b"])
     return len(case["b"]) > 0
@@ -549,3 +842,42 @@ def run(R):
              "non-ASCII digits) and strings over reserved characters, '%', '+', multi-byte UTF-8, text that itself looks percent-encoded; 3-4 client encoders; 15% byte-level mutations "
              "(dangling %, %FF, overlong/surrogate sequences, raw high bytes); non-trivial = input needs decoding ('%', '+', non-ASCII) or ends in a documented error; distinct by full input",
     )
+    json_phase(R, 4000 if R.tier == "quick" else 150000)
+
+
+def json_phase(R, n):
+    """`JsonBody::extract`: serde_json is not modelled in Lean; the real extractor is checked against
+    Python's json module (implementation-side oracle only). Reported separately in the evidence."""
+    if R.replay:
+        rp = json.load(open(R.replay))["replay"]
+        cases = [c for c in (rp.get("cases") or [rp.get("case")]) if c and c.get("op") == "json"]
+    else:
+        cases = []
+        path = os.path.join(pxvlib.CORPUS, "C15", "json_oracle_only.txt")
+        if os.path.exists(path):
+            cases += [json.loads(l) for l in open(path) if l.strip()]
+        cases += [gen_json(R.rng) for _ in range(n)]
+    if not cases:
+        return
+    lines = [json.dumps(c, sort_keys=True) for c in cases]
+    outs = pxvlib.run_impl("reqdata", lines, pkg="reqdata")
+    hist, fails, seen = {}, [], set()
+    for c, l, o in zip(cases, lines, outs):
+        try:
+            io = json.loads(o)
+        except Exception:
+            io = {"r": "unparseable"}
+        k = io.get("kind") or io.get("r")
+        hist[k] = hist.get(k, 0) + 1
+        why = oracle_json(c, io)
+        if why:
+            fails.append((c, o, why))
+        if io.get("r") in ("ok", "err"):
+            seen.add(l)
+    R.coverage["json_oracle_only"] = {"evaluations": len(cases), "distinct": len(seen), "oracle_failures": len(fails), "outcome_histogram": hist,
+                                      "note": "no Lean model of serde_json: JSON bodies are covered by the Content-Type gate model (op `ct`) plus this oracle"}
+    R.coverage["evaluations"] += len(cases)
+    R.coverage["impl_vs_oracle_failures"] += len(fails)
+    R.log("json (oracle only): cases=%d failures=%d hist=%s" % (len(cases), len(fails), hist))
+    for c, o, why in fails[:3]:
+        R.violation("implementation breaks the property: " + why, {"case": c, "impl": o})
